@@ -184,6 +184,11 @@ pub struct Expiry {
     pub d: i64,
     pub last: std::collections::BTreeMap<u32, i64>,
     pub stale_frames: std::collections::BTreeMap<u32, u32>,
+    /// Addresses seen stale at some accepted frame since they were last heard.
+    pub was_stale: std::collections::BTreeSet<u32>,
+    /// Earliest clock reading at which the row may have been stamped last: its latest judged frame, or any
+    /// later frame whose address the reference cannot name (formats outside the nine).
+    pub low: std::collections::BTreeMap<u32, i64>,
 }
 
 impl Expiry {
@@ -198,12 +203,30 @@ impl Expiry {
     }
     /// An accepted frame of `addr` is processed at `t_us`.
     pub fn accept(&mut self, addr: u32, t_us: i64) {
-        let stale: Vec<u32> = self.last.keys().copied().filter(|&a| a != addr && self.is_stale(a, t_us)).collect();
-        for a in stale {
-            *self.stale_frames.entry(a).or_insert(0) += 1;
+        let others: Vec<u32> = self.last.keys().copied().filter(|&a| a != addr).collect();
+        for a in others {
+            if self.is_stale(a, t_us) {
+                *self.stale_frames.entry(a).or_insert(0) += 1;
+                // a sweep may have taken it: from now on it need not be listed until it is heard again
+                // (matters only when the clock is set back afterwards and the row looks young again)
+                self.was_stale.insert(a);
+            } else {
+                // not stale at this frame (the clock went back): the count of consecutive stale frames restarts
+                self.stale_frames.remove(&a);
+            }
         }
         self.last.insert(addr, t_us);
+        self.low.insert(addr, t_us);
         self.stale_frames.remove(&addr);
+        self.was_stale.remove(&addr);
+    }
+    /// A frame was applied whose address the reference cannot name: any row may have been re-stamped at `t_us`.
+    pub fn note_unjudged(&mut self, t_us: i64) {
+        for v in self.low.values_mut() { *v = (*v).min(t_us); }
+    }
+    /// Stale under at least one of the stamps the row may carry (equals `is_stale` when the clock never went back).
+    pub fn maybe_stale(&self, addr: u32, now_us: i64) -> bool {
+        self.is_stale(addr, now_us) || self.low.get(&addr).map(|&t| (now_us - t).div_euclid(1_000_000) >= self.d).unwrap_or(true)
     }
     /// A new connection starts: the implementation's sweep counter restarts; the
     /// 12-frame bound is only judged within one connection.
@@ -211,13 +234,15 @@ impl Expiry {
         self.stale_frames.clear();
     }
     pub fn must_be_present(&self, now_us: i64) -> Vec<u32> {
-        self.last.keys().copied().filter(|&a| !self.is_stale(a, now_us)).collect()
+        self.last.keys().copied().filter(|&a| !self.is_stale(a, now_us) && !self.was_stale.contains(&a)).collect()
     }
     pub fn must_be_absent(&self, now_us: i64) -> Vec<u32> {
         self.last.keys().copied().filter(|&a| self.is_stale(a, now_us) && self.stale_frames.get(&a).copied().unwrap_or(0) >= 12).collect()
     }
     pub fn forget(&mut self, addr: u32) {
         self.last.remove(&addr);
+        self.low.remove(&addr);
         self.stale_frames.remove(&addr);
+        self.was_stale.remove(&addr);
     }
 }
